@@ -185,7 +185,7 @@ func Eq(a, b Term) Term {
 	return App(SBool, "=", a, b)
 }
 
-func isStrLit(t Term) bool { return strings.HasPrefix(t.S, "lit!") }
+func isStrLit(t Term) bool { return strings.HasPrefix(t.S, "lit!") || strings.HasPrefix(t.S, "lit.") }
 
 func Ite(c, a, b Term) Term {
 	if c.IsTrue() {
@@ -294,6 +294,8 @@ type SymCtx struct {
 	lits     map[string]string // go string -> symbol
 	litOrder []string
 	counter  int
+	preset   map[string]string // go string -> symbol declared by the spec prelude
+	isPreset map[string]bool
 }
 
 func NewSymCtx() *SymCtx {
@@ -348,6 +350,15 @@ func (c *SymCtx) Func(name string, args []Sort, res Sort) string {
 
 func (c *SymCtx) StrLit(s string) Term {
 	if sym, ok := c.lits[s]; ok {
+		return Term{sym, SStr}
+	}
+	if sym, ok := c.preset[s]; ok {
+		c.lits[s] = sym
+		c.litOrder = append(c.litOrder, s)
+		if c.isPreset == nil {
+			c.isPreset = map[string]bool{}
+		}
+		c.isPreset[sym] = true
 		return Term{sym, SStr}
 	}
 	var b strings.Builder
